@@ -63,6 +63,7 @@ PROP = {  # subject prefix -> (properties, what failed before the repair)
  "the cached key counts and group-sorted indexer are read-only": ("C19", "writing into the arrays returned by gb.groups or gb.key_count changed the results of later calls (shared cached buffers)"),
  "a raw pyarrow type of temporal values is wrapped for pandas where the result is built": ("C12", "repair of an earlier fix: wrapping the pyarrow type inside _convert_timestamp_to_tz_unaware broke two tests of the pinned suite; the wrapping now happens in the pandas result builder"),
  "plain integer sums are not stopped at the null sentinel": ("C12 C01 C08", "repair of an earlier fix: int64 group sums / cumsum(skip_na=False) whose partial sum passed exactly through -2**63 (e.g. -2**62, -2**62, 5) returned -2**63 instead of the true sum, which is within the 64-bit range"),
+ "a polars Enum key is categorical": ("C11", "GroupBy(pl.Series(..., dtype=pl.Enum(['c','b','a']))).sum(v) listed the labels in text order ['a','b'] instead of the declared category order ['b','a'] (pandas Categorical / pl.Categorical / Arrow dictionary keys keep theirs)"),
  "apply returns an empty result": ("C05 C09", "median/apply with nothing selected raised IndexError (was known finding K2)"),
 }
 log = subprocess.run(["git", "-C", "/repo", "log", "--format=%h %s", "be63ad5..HEAD"], stdout=subprocess.PIPE).stdout.decode().splitlines()
